@@ -226,7 +226,7 @@ def enabled(ms, universe, allow_cycles=False):
         elif k == "unregid":
             if not any(t[0] in "FK" and t[1] == op[1] for t in ms.tasks):
                 continue
-        elif k == "load":
+        elif k in ("load", "copyfrom"):
             ok = True
             tmp = ms
             for path, term in op[1]:
@@ -344,6 +344,19 @@ def spurious_path(ns, src, dst):
             if RM.g_edge(ns.tasks[node], ns.tasks[b]):
                 sp = used or not (node != b and RM.p_edge(ns.tasks[node], ns.tasks[b]))
                 todo.append((b, sp))
+    return False
+
+
+def order_underdetermined(ns, trigger):
+    """Static criterion on the model graph: some precise edge a->b between two
+    triggered tasks lies on a cycle of the documented ordering graph G that
+    uses a spurious (G minus P) edge.  Exactly then a depth-first sort of G
+    may legitimately (given the recorded finding) put b before a."""
+    trig = list(trigger)
+    for a in trig:
+        for b in trig:
+            if a != b and RM.p_edge(ns.tasks[a], ns.tasks[b]) and spurious_path(ns, b, a):
+                return True
     return False
 
 
@@ -494,7 +507,12 @@ class ManagerSystem:
     def replay(self, hist):
         w = World(self.world)
         for i in hist:
-            w.apply(self.universe[i])
+            try:
+                w.apply(self.universe[i])
+            except Exception:  # noqa
+                # histories are only extended over operations whose outcome
+                # (including an expected rejection) matched the model
+                pass
         w.trace.reset()
         return w
 
@@ -512,6 +530,9 @@ class ManagerSystem:
             "case": {"world": self.world["name"], "cfg": "see ops", "ops_raw": ops},
         }
 
+    def enabled_ops(self, hist, ms):
+        return enabled(ms, self.universe, self.allow_cycles)
+
     def transition_checks(self, w, ms, op, ns, ex, hist):
         """extra oracles on the executed transition; return list of issues"""
         return []
@@ -527,7 +548,7 @@ class ManagerSystem:
         stats = {"ops": {}, "verdicts": {}, "trigger_sizes": {}}
         transitions = 0
         leaves = 0
-        for opi in enabled(ms, self.universe, self.allow_cycles):
+        for opi in self.enabled_ops(hist, ms):
             op = self.universe[opi]
             w = self.replay(hist)
             exc = None
@@ -556,9 +577,17 @@ class ManagerSystem:
                 stats["pruned_order_underdetermined"] = stats.get("pruned_order_underdetermined", 0) + 1
                 leaves += 1
                 continue
-            issues.extend(self.transition_checks(w, ms, op, ns, ex, hist))
-            dg = canon(w)
-            issues.extend(self.state_checks(w, ns, hist, op))
+            try:
+                issues.extend(self.transition_checks(w, ms, op, ns, ex, hist))
+                dg = canon(w)
+                issues.extend(self.state_checks(w, ns, hist, op))
+            except Exception as e:  # noqa
+                import traceback
+                issues.append(self.issue("violation", hist, op,
+                                         f"{type(e).__name__} while observing the state: {e}",
+                                         {"traceback": traceback.format_exc()[-1500:]}))
+                leaves += 1
+                continue
             children.append((dg, opi))
         if transitions == 0:
             leaves += 1
